@@ -384,13 +384,13 @@ func (p proxyHandler) writeResponse(rw http.ResponseWriter, res *http.Response) 
 
 	var err error
 	switch {
-	case isTextEventStream(res):
-		w := newPatternFlushWriter(rw, http.NewResponseController(rw), sseFlushPattern)
-		err = copyBody(w, res.Body)
 	case shouldChunk(res):
 		// The body read here is already decoded, there are no chunk boundaries to look for:
-		// pass on whatever the upstream has sent so far.
+		// pass on whatever the upstream has sent so far (of an event stream as well).
 		w := flushAfterWriteWriter{rw, http.NewResponseController(rw)}
+		err = copyBody(w, res.Body)
+	case isTextEventStream(res):
+		w := newEventFlushWriter(rw, http.NewResponseController(rw))
 		err = copyBody(w, res.Body)
 	default:
 		err = copyBody(rw, res.Body)
